@@ -28,6 +28,7 @@ func checkC10(c *Ctx, p *Prog, r *Result) {
 	e.g5(r, "C10")
 	e.g6(r, "C10", f)
 	e.g7(r, "C10", f)
+	e.g7b(r, "C10", f)
 	e.g8(r, "C10", f)
 	r.floor("C10.panics", 45)
 	r.floor("C10.partial-lookups", 15)
